@@ -132,3 +132,163 @@ pub fn hash_of<T: std::hash::Hash>(t: &T) -> u64 {
 pub fn now_or_never<F: std::future::Future>(f: F) -> F::Output {
     futures::FutureExt::now_or_never(f).expect("future was expected to complete without waiting")
 }
+
+// ------------------------------------------------------------------------------------------------
+// Parquet chunks whose rows carry unique ids
+// ------------------------------------------------------------------------------------------------
+
+use arrow_array::{Array, Float64Array, Int64Array, RecordBatch, StringArray, TimestampNanosecondArray};
+use arrow_schema::{DataType, Field, Schema, TimeUnit};
+
+#[derive(Debug, Clone, PartialEq)]
+pub struct Row {
+    pub ts: i64,
+    pub metric: String,
+    pub host: Option<String>,
+    pub id: i64,
+    pub value: f64,
+}
+
+/// `ts_type`: false = Int64 timestamp column, true = Timestamp(ns, UTC)
+pub fn rows_to_batch(rows: &[Row], ts_type: bool) -> RecordBatch {
+    let ts_field = if ts_type {
+        Field::new("timestamp", DataType::Timestamp(TimeUnit::Nanosecond, Some("UTC".into())), false)
+    } else {
+        Field::new("timestamp", DataType::Int64, false)
+    };
+    let schema = Arc::new(Schema::new(vec![
+        ts_field,
+        Field::new("metric_name", DataType::Utf8, false),
+        Field::new("host", DataType::Utf8, true),
+        Field::new("id", DataType::Int64, false),
+        Field::new("value_f64", DataType::Float64, true),
+    ]));
+    let ts: Vec<i64> = rows.iter().map(|r| r.ts).collect();
+    let ts_arr: Arc<dyn Array> = if ts_type {
+        Arc::new(TimestampNanosecondArray::from(ts).with_timezone("UTC"))
+    } else {
+        Arc::new(Int64Array::from(ts))
+    };
+    RecordBatch::try_new(
+        schema,
+        vec![
+            ts_arr,
+            Arc::new(StringArray::from(rows.iter().map(|r| r.metric.clone()).collect::<Vec<_>>())),
+            Arc::new(StringArray::from(rows.iter().map(|r| r.host.clone()).collect::<Vec<_>>())),
+            Arc::new(Int64Array::from(rows.iter().map(|r| r.id).collect::<Vec<_>>())),
+            Arc::new(Float64Array::from(rows.iter().map(|r| r.value).collect::<Vec<_>>())),
+        ],
+    )
+    .expect("batch")
+}
+
+pub fn row(ts: i64, id: i64) -> Row {
+    Row { ts, metric: "cpu".into(), host: Some("a".into()), id, value: id as f64 }
+}
+
+pub fn encode_parquet(batch: &RecordBatch) -> Bytes {
+    cardinalsin::ingester::ParquetWriter::new().write_batch(batch).expect("parquet encode")
+}
+
+/// Decode the rows of a Parquet object (any of the schemas used by the harnesses).
+pub fn decode_rows(data: Bytes) -> Result<Vec<Row>, String> {
+    use arrow_array::cast::AsArray;
+    let reader = parquet::arrow::arrow_reader::ParquetRecordBatchReaderBuilder::try_new(data)
+        .map_err(|e| e.to_string())?
+        .build()
+        .map_err(|e| e.to_string())?;
+    let mut out = Vec::new();
+    for b in reader {
+        let b = b.map_err(|e| e.to_string())?;
+        let tsc = b.column_by_name("timestamp").ok_or("no timestamp column")?;
+        let ts: Vec<i64> = if let Some(a) = tsc.as_primitive_opt::<arrow_array::types::TimestampNanosecondType>() {
+            a.values().to_vec()
+        } else if let Some(a) = tsc.as_primitive_opt::<arrow_array::types::Int64Type>() {
+            a.values().to_vec()
+        } else {
+            return Err(format!("timestamp type {:?}", tsc.data_type()));
+        };
+        let strcol = |name: &str| -> Vec<Option<String>> {
+            match b.column_by_name(name) {
+                None => vec![None; b.num_rows()],
+                Some(c) => {
+                    let c = arrow::compute::cast(c, &DataType::Utf8).expect("cast to utf8");
+                    let a = c.as_string::<i32>();
+                    (0..a.len()).map(|i| if a.is_null(i) { None } else { Some(a.value(i).to_string()) }).collect()
+                }
+            }
+        };
+        let metric = strcol("metric_name");
+        let host = strcol("host");
+        let ids: Vec<i64> = b
+            .column_by_name("id")
+            .and_then(|c| c.as_primitive_opt::<arrow_array::types::Int64Type>().map(|a| a.values().to_vec()))
+            .unwrap_or_else(|| vec![-1; b.num_rows()]);
+        let vals: Vec<f64> = b
+            .column_by_name("value_f64")
+            .and_then(|c| c.as_primitive_opt::<arrow_array::types::Float64Type>().map(|a| (0..a.len()).map(|i| if a.is_null(i) { f64::NAN } else { a.value(i) }).collect()))
+            .unwrap_or_else(|| vec![f64::NAN; b.num_rows()]);
+        for i in 0..b.num_rows() {
+            out.push(Row { ts: ts[i], metric: metric[i].clone().unwrap_or_default(), host: host[i].clone(), id: ids[i], value: vals[i] });
+        }
+    }
+    Ok(out)
+}
+
+/// Upload `rows` as one Parquet chunk under `path` and register it (through `meta`).
+pub async fn put_chunk(
+    store: &Arc<dyn ObjectStore>,
+    meta: &dyn cardinalsin::metadata::MetadataClient,
+    path: &str,
+    rows: &[Row],
+    ts_type: bool,
+) -> ChunkMetadata {
+    let bytes = encode_parquet(&rows_to_batch(rows, ts_type));
+    let size = bytes.len() as u64;
+    store.put(&object_store::path::Path::from(path), bytes.into()).await.expect("put chunk");
+    let m = ChunkMetadata {
+        path: path.to_string(),
+        min_timestamp: rows.iter().map(|r| r.ts).min().unwrap_or(0),
+        max_timestamp: rows.iter().map(|r| r.ts).max().unwrap_or(0),
+        row_count: rows.len() as u64,
+        size_bytes: size,
+    };
+    meta.register_chunk(path, &m).await.expect("register chunk");
+    m
+}
+
+/// ids reachable through a list of chunk paths (raw store reads); Err(path) if an object is missing
+pub async fn reachable_ids(store: &Arc<dyn ObjectStore>, paths: &[String], cache: &mut BTreeMap<String, Vec<i64>>) -> Result<Vec<i64>, String> {
+    let mut ids = Vec::new();
+    for p in paths {
+        if let Some(v) = cache.get(p) {
+            ids.extend(v.iter().copied());
+            continue;
+        }
+        let data = match store.get(&object_store::path::Path::from(p.as_str())).await {
+            Ok(r) => r.bytes().await.map_err(|e| e.to_string())?,
+            Err(_) => return Err(p.clone()),
+        };
+        let rows = decode_rows(data)?;
+        let v: Vec<i64> = rows.iter().map(|r| r.id).collect();
+        cache.insert(p.clone(), v.clone());
+        ids.extend(v);
+    }
+    ids.sort();
+    Ok(ids)
+}
+
+/// Raise the registered chunk `path` to compaction level `level` through the real API
+/// (level = max(level of sources) + 1): a chain of throw-away source entries is compacted into it.
+pub async fn promote_to_level(meta: &dyn cardinalsin::metadata::MetadataClient, path: &str, level: u32) {
+    if level == 0 {
+        return;
+    }
+    let d = |k: u32| format!("tmp/promote/{}_{k}", path.replace('/', "_"));
+    meta.register_chunk(&d(0), &chunk_meta(&d(0), 0, 0)).await.expect("dummy");
+    for k in 1..level {
+        meta.register_chunk(&d(k), &chunk_meta(&d(k), 0, 0)).await.expect("dummy");
+        meta.complete_compaction(&[d(k - 1)], &d(k)).await.expect("promote dummy");
+    }
+    meta.complete_compaction(&[d(level - 1)], path).await.expect("promote");
+}
